@@ -40,6 +40,7 @@ type Part struct {
 	Name []string `json:"name"`
 	Qty  []string `json:"qty"`
 }
+
 // array whose NAME extends the name of the array "items" (kind prefixname)
 type ItemY struct {
 	W []string `json:"w"`
@@ -379,6 +380,238 @@ func genFinding(r *vrand.R, kind string) Q {
 	}
 }
 
+// ---- kind adv / advmin: a nested conjunction that is Advance()d by an enclosing searcher ----
+//
+// A corpus of 8-14 parents in which one "hot" value per field is frequent, so that elements that
+// satisfy a same-chain conjunction completely (often two in a row), parents that hold all its
+// terms but in DIFFERENT elements (at the first and at the second nesting level) and partial
+// ones are interleaved; top-level fields are sparse, so that an enclosing conjunction / boolean /
+// disjunction skips over parents and Advance()s the nested conjunction.
+
+type hotSpec map[string]string // field -> its frequent value
+
+func (h hotSpec) cold(f string) string {
+	v := vocab[f]
+	if v[0] == h[f] {
+		return v[1]
+	}
+	return v[0]
+}
+
+// value of field f in an element: hit = holds the hot value
+func (h hotSpec) val(r *vrand.R, f string, hit bool) []string {
+	if hit {
+		if r.Chance(1, 8) {
+			return []string{vocab[f][0], vocab[f][1]}
+		}
+		return []string{h[f]}
+	}
+	if r.Chance(1, 5) {
+		return nil
+	}
+	return []string{h.cold(f)}
+}
+
+func (h hotSpec) sub(r *vrand.R, k, v bool) Sub { return Sub{K: h.val(r, "k", k), V: h.val(r, "v", v)} }
+
+func (h hotSpec) item(r *vrand.R, c, s bool, subs ...Sub) Item {
+	return Item{Color: h.val(r, "color", c), Size: h.val(r, "size", s), Subs: subs}
+}
+
+func (h hotSpec) rndItem(r *vrand.R) Item {
+	it := h.item(r, r.Chance(3, 5), r.Chance(3, 5))
+	for j := r.Intn(3); j > 0; j-- {
+		it.Subs = append(it.Subs, h.sub(r, r.Chance(3, 5), r.Chance(3, 5)))
+	}
+	return it
+}
+
+func genAdvDoc(r *vrand.R, h hotSpec) *Doc {
+	d := &Doc{PartsFirst: r.Bool()}
+	// sparse top-level fields
+	if r.Chance(1, 3) {
+		d.Top = []string{h["top"]}
+	} else if r.Chance(2, 3) {
+		d.Top = []string{h.cold("top")}
+	}
+	if r.Chance(1, 3) {
+		d.Tag = []string{h["tag"]}
+	} else if r.Bool() {
+		d.Tag = []string{h.cold("tag")}
+	}
+	full := func() Item { return h.item(r, true, true, h.sub(r, true, true)) }
+	switch r.Intn(9) {
+	case 0: // two (or three) consecutive elements that satisfy every same-chain conjunction
+		d.Items = []Item{full(), full()}
+		if r.Bool() {
+			d.Items = append(d.Items, full())
+		}
+	case 1: // one such element among others
+		d.Items = []Item{h.rndItem(r), full(), h.rndItem(r)}[r.Intn(2) : 2+r.Intn(2)]
+	case 2: // all terms present, split over two elements of the outer array
+		d.Items = []Item{h.item(r, true, true, h.sub(r, false, false)), h.item(r, false, false, h.sub(r, true, true))}
+		if r.Bool() {
+			d.Items[0], d.Items[1] = d.Items[1], d.Items[0]
+		}
+	case 3: // split at the second level: one element, its terms in different sub-elements
+		d.Items = []Item{h.item(r, true, true, h.sub(r, true, false), h.sub(r, false, true))}
+		if r.Bool() {
+			d.Items = append(d.Items, h.item(r, false, r.Bool()))
+		}
+	case 4: // split both ways
+		d.Items = []Item{h.item(r, true, false, h.sub(r, true, false)), h.item(r, false, true, h.sub(r, false, true))}
+	case 5: // no element at all / elements without sub-arrays
+		for i := r.Intn(3); i > 0; i-- {
+			d.Items = append(d.Items, h.item(r, r.Bool(), r.Bool()))
+		}
+	default:
+		for i := r.Range(1, 3); i > 0; i-- {
+			d.Items = append(d.Items, h.rndItem(r))
+		}
+	}
+	for i := r.Intn(3); i > 0; i-- {
+		d.Parts = append(d.Parts, Part{Name: h.val(r, "name", r.Chance(2, 5)), Qty: h.val(r, "qty", r.Chance(2, 5))})
+	}
+	return d
+}
+
+func (h hotSpec) term(r *vrand.R, l leafSpec) Q {
+	t := h[l.f]
+	if r.Chance(1, 8) {
+		t = h.cold(l.f)
+	}
+	return Q{K: "term", P: l.p, F: l.f, T: t}
+}
+
+// advInner: conjunctions whose conjuncts share an array chain or meet at the parent; all but the
+// last two are NestedConjunctionSearchers (their fields sit at different depths)
+func advInner(r *vrand.R, h hotSpec) Q {
+	it := func() Q { return h.term(r, vrand.Pick(r, itemLeaves)) }
+	sb := func() Q { return h.term(r, vrand.Pick(r, subLeaves)) }
+	switch r.Intn(9) {
+	case 0, 1, 2:
+		return Q{K: "conj", Qs: []Q{it(), sb()}}
+	case 3:
+		qs := []Q{h.term(r, itemLeaves[0]), h.term(r, itemLeaves[1]), sb()}
+		vrand.Shuffle(r, qs)
+		return Q{K: "conj", Qs: qs}
+	case 4:
+		return Q{K: "conj", Qs: []Q{it(), {K: "conj", Qs: []Q{h.term(r, subLeaves[0]), h.term(r, subLeaves[1])}}}}
+	case 5:
+		return Q{K: "conj", Qs: []Q{{K: "disj", Min: r.Intn(2), Qs: []Q{h.term(r, subLeaves[0]), h.term(r, subLeaves[1])}}, it()}}
+	case 6: // meets at the parent: sibling arrays
+		return Q{K: "conj", Qs: []Q{it(), h.term(r, vrand.Pick(r, partLeaves))}}
+	case 7: // two levels and a sibling array
+		return Q{K: "conj", Qs: []Q{{K: "conj", Qs: []Q{it(), sb()}}, h.term(r, vrand.Pick(r, partLeaves))}}
+	default: // one depth only (plain conjunction over sub-document numbers)
+		g := vrand.Pick(r, [][]leafSpec{itemLeaves, subLeaves})
+		return Q{K: "conj", Qs: []Q{h.term(r, g[0]), h.term(r, g[1])}}
+	}
+}
+
+// advOuter: the nested conjunction as a clause next to sparse clauses (kind adv: shapes that are
+// combined per parent today)
+func advOuter(r *vrand.R, h hotSpec) Q {
+	inner := advInner(r, h)
+	top := func() Q { return h.term(r, vrand.Pick(r, topLeaves)) }
+	var q Q
+	switch r.Intn(9) {
+	case 0, 1:
+		q = Q{K: "conj", Qs: []Q{inner, top()}}
+	case 2:
+		q = Q{K: "conj", Qs: []Q{inner, h.term(r, topLeaves[0]), h.term(r, topLeaves[1])}}
+	case 3:
+		q = Q{K: "bool", Must: []Q{inner, top()}}
+		if r.Bool() {
+			q.Should = []Q{top()}
+		}
+	case 4: // through a disjunction that is itself Advance()d
+		q = Q{K: "conj", Qs: []Q{top(), {K: "disj", Min: r.Intn(2), Qs: []Q{inner, advInner(r, h)}}}}
+	case 5: // sparse clause on a sibling array
+		q = Q{K: "conj", Qs: []Q{inner, h.term(r, vrand.Pick(r, partLeaves))}}
+	case 6:
+		q = Q{K: "conj", Qs: []Q{inner, {K: "conj", Qs: []Q{h.term(r, topLeaves[0]), h.term(r, topLeaves[1])}}}}
+	case 7:
+		q = Q{K: "conj", Qs: []Q{inner, {K: "disj", Min: r.Intn(2), Qs: []Q{h.term(r, topLeaves[0]), h.term(r, topLeaves[1])}}}}
+	default: // two nested conjunctions side by side
+		q = Q{K: "conj", Qs: []Q{inner, advInner(r, h), top()}}
+	}
+	if q.K == "conj" {
+		vrand.Shuffle(r, q.Qs)
+	}
+	if r.Chance(1, 6) {
+		q = Q{K: "disj", Min: r.Intn(2), Qs: []Q{q, top()}}
+	}
+	return q
+}
+
+// advMin: the nested conjunction as a disjunct of a min >= 2 disjunction / should-only boolean
+// that is Advance()d by a sparse conjunct (mechanism-only: min >= 2 across scopes is not combined
+// per parent today)
+func advMin(r *vrand.R, h hotSpec) Q {
+	top := func() Q { return h.term(r, vrand.Pick(r, topLeaves)) }
+	qs := []Q{advInner(r, h), advInner(r, h)}
+	if r.Bool() {
+		qs = append(qs, top())
+	}
+	vrand.Shuffle(r, qs)
+	var d Q
+	if r.Bool() {
+		d = Q{K: "disj", Min: 2, Qs: qs}
+	} else {
+		d = Q{K: "bool", Should: qs, Min: 2}
+	}
+	out := []Q{top(), d}
+	vrand.Shuffle(r, out)
+	return Q{K: "conj", Qs: out}
+}
+
+func genAdvHistory(r *vrand.R, in *In) hotSpec {
+	h := hotSpec{}
+	for _, f := range []string{"top", "tag", "color", "size", "k", "v", "name", "qty"} {
+		h[f] = vrand.Pick(r, vocab[f])
+	}
+	in.NIDs = r.Range(8, 14)
+	ids := make([]int, in.NIDs)
+	for i := range ids {
+		ids[i] = i
+	}
+	if r.Chance(1, 3) {
+		vrand.Shuffle(r, ids)
+	}
+	// the corpus in 1-3 batches of distinct ids, then sometimes a few updates / deletes
+	nb := r.Range(1, 3)
+	per := (in.NIDs + nb - 1) / nb
+	for b := 0; b < nb; b++ {
+		var ops []Op
+		for _, id := range ids[min(b*per, len(ids)):min((b+1)*per, len(ids))] {
+			ops = append(ops, Op{ID: id, Doc: genAdvDoc(r, h)})
+		}
+		if len(ops) > 0 {
+			in.Batches = append(in.Batches, ops)
+			in.Merge = append(in.Merge, r.Chance(1, 4))
+		}
+	}
+	if r.Chance(1, 3) {
+		var ops []Op
+		for k := r.Range(1, 3); k > 0; k-- {
+			id := r.Intn(in.NIDs)
+			if r.Bool() {
+				ops = append(ops, Op{Del: true, ID: id})
+			} else {
+				ops = append(ops, Op{ID: id, Doc: genAdvDoc(r, h)})
+			}
+		}
+		in.Batches = append(in.Batches, ops)
+		in.Merge = append(in.Merge, r.Chance(1, 4))
+	}
+	in.Disk = r.Chance(1, 8)
+	in.Opts = r.Intn(4)
+	in.Reopen = in.Disk && r.Chance(1, 3)
+	in.SortID = r.Chance(1, 4)
+	return h
+}
+
 func genHistory(r *vrand.R, in *In) {
 	prefixNames := in.Kind == "prefixname"
 	in.NIDs = r.Range(2, 7)
@@ -436,6 +669,25 @@ func gen(f vh.Flags, r *vrand.R, emit func(In)) {
 			tw.ModelOnly = true
 			emit(tw)
 		}
+	}
+	// a nested conjunction Advance()d by an enclosing searcher, dense corpora (judged like kind ws)
+	for i := 0; i < f.N(40, 1600); i++ {
+		in := In{Kind: "adv"}
+		h := genAdvHistory(r, &in)
+		in.Queries = append(in.Queries, advInner(r, h))
+		for k := 0; k < 7; k++ {
+			in.Queries = append(in.Queries, advOuter(r, h))
+		}
+		emit(in)
+	}
+	// the same below a min >= 2 disjunction: mechanism only
+	for i := 0; i < f.N(10, 400); i++ {
+		in := In{Kind: "advmin", ModelOnly: true}
+		h := genAdvHistory(r, &in)
+		for k := 0; k < 6; k++ {
+			in.Queries = append(in.Queries, advMin(r, h))
+		}
+		emit(in)
 	}
 }
 
@@ -759,7 +1011,9 @@ var classOf = map[string]string{
 func exec(in In) vh.Result {
 	if os.Getenv("C20_TIMING") != "" {
 		t0 := time.Now()
-		defer func() { fmt.Fprintf(os.Stderr, "timing disk=%v opts=%d reopen=%v batches=%d %v\n", in.Disk, in.Opts, in.Reopen, len(in.Batches), time.Since(t0)) }()
+		defer func() {
+			fmt.Fprintf(os.Stderr, "timing disk=%v opts=%d reopen=%v batches=%d %v\n", in.Disk, in.Opts, in.Reopen, len(in.Batches), time.Since(t0))
+		}()
 	}
 	var res vh.Result
 	var dirs []string
@@ -954,6 +1208,10 @@ func main() {
 			"an update/delete history in 1-6 batches on scorch (in memory, or on disk with forced merges / reopen), the arrays mapped nested and the same history on a flat mapping; " +
 			"per history 10 queries: match-all, same-array conjunctions, nested conjunction as a clause of a larger query, conjunction/disjunction/boolean trees over nested and top-level term leaves (kind ws: shapes whose clauses are combined per parent today), " +
 			"kind prefixname: conjunctions of a clause on the array items with one on the top-level field itemsx / the array itemsy, whose NAMES extend \"items\"; " +
+			"kind adv: corpora of 8-14 parents with one frequent value per field (elements that satisfy a same-chain conjunction completely, often two in a row, " +
+			"interleaved with parents holding all its terms in DIFFERENT elements at the first / second nesting level, and sparse top-level fields) and 8 queries whose " +
+			"nested conjunction (items.x AND items.subs.y, with sub-conjunctions / disjunctions / sibling arrays) is a clause of an outer conjunction / boolean must / disjunction next to sparse clauses, so that it is Advance()d; " +
+			"kind advmin (mechanism only): the same below a min>=2 disjunction / should-only boolean; " +
 			"plus four small kinds for the known-finding shapes (boolean across depths, across sibling arrays, disjunction min>=2 across scopes, must-not-only boolean), each with a mechanism-only twin; " +
 			"non-trivial: the index holds sub-documents, some query has hits, and nested and flat answers differ or the history updates/deletes a document",
 		ShardSize: 16,
